@@ -359,7 +359,7 @@ def run_shard(spec, workdir):
             shutil.rmtree(wd, ignore_errors=True)
             continue
         res["violations"].extend(viols)
-        if k < 1 and spec.get("shard", 0) == 0:
+        if not res["samples"] and spec.get("shard", 0) == 0:
             res["samples"].append({"seed": seed, "history": h.describe()})
         shutil.rmtree(wd, ignore_errors=True)
     return res
